@@ -188,6 +188,10 @@ func c20Scenario(p c20P, b Bounds) *Scenario {
 						j.Go("fail", func() { vs.Event("env", "fail-other"); acc.failWith = errAccept })
 					case "fail-temp":
 						j.Go("fail", func() { vs.Event("env", "fail-other"); acc.failWith = tempErr{} })
+					case "fail-chclosed": // the closed-listener error of an accepter that is not a net.Listener
+						j.Go("fail", func() { vs.Event("env", "fail-closed"); acc.failWith = channel.ErrClosed })
+					case "fail-chclosed-wrapped":
+						j.Go("fail", func() { vs.Event("env", "fail-closed"); acc.failWith = fmt.Errorf("accepter: %w", channel.ErrClosed) })
 					case "fail-eof":
 						j.Go("fail", func() { vs.Event("env", "fail-other"); acc.failWith = io.EOF })
 					case "fail-pipe":
@@ -339,6 +343,20 @@ func c20Scenario(p c20P, b Bounds) *Scenario {
 						nfail++
 					}
 				}
+				{
+					cc := map[string]int{}
+					for _, e := range x.Log {
+						if e.K == "closed" && strings.HasPrefix(e.Arg(0), "conn") {
+							cc[e.Arg(0)]++
+						}
+					}
+					for name, n := range cc {
+						Hit("C20.R6")
+						if n > 1 && nfail == 0 {
+							v = append(v, Viol{"C20.R6", fmt.Sprintf("%s was closed %d times", name, n)})
+						}
+					}
+				}
 				if nfail > 0 {
 					// count accepted connections that were never closed by the library
 					closedConns := map[string]int{}
@@ -457,10 +475,10 @@ func c20Scenarios(tier string) []*Scenario {
 			out = append(out, c20Scenario(c20P{Items: o}, b))
 		}
 	}
-	for _, o := range [][]string{{"fail-eof"}, {"conn1", "fail-eof"}, {"fail-pipe"}, {"fail-ueof"}, {"connpush"}, {"connpushgo"}, {"connpush", "cancel"}, {"cancel", "connpush"}, {"conn1", "connpush"}, {"connpushgo", "conn1"}, {"connpush", "fail-other"}} {
+	for _, o := range [][]string{{"fail-chclosed"}, {"fail-chclosed-wrapped"}, {"conn1", "fail-chclosed-wrapped"}, {"fail-eof"}, {"conn1", "fail-eof"}, {"fail-pipe"}, {"fail-ueof"}, {"connpush"}, {"connpushgo"}, {"connpush", "cancel"}, {"cancel", "connpush"}, {"conn1", "connpush"}, {"connpushgo", "conn1"}, {"connpush", "fail-other"}} {
 		b := Bounds{1, 1, 0}
 		if !q {
-			b = Bounds{2, 2, 0}
+			b = Bounds{2, 1, 0}
 		}
 		out = append(out, c20Scenario(c20P{Items: o}, b))
 	}
